@@ -210,7 +210,10 @@ def generic(prop, fams, tier, seed, replay, preds, rule, nontrivial, require=(),
     drift = nt = 0
     for c in cases:
         v = None
-        for p in preds:
+        if c.crashed:
+            # whatever the property: the specification determines a result for this case and the parser gives none
+            v = Violation(prop, "NoPanic/Terminates", "the generated parser did not return: %s" % c.crash_msg, c)
+        for p in ([] if v is not None else preds):
             v = p(prop, c)
             if v is not None:
                 break
@@ -388,6 +391,13 @@ def p_packrat(prop, c):
             if name == fn and n > 1:
                 return Violation(prop, "Packrat", "the body of memoized rule %s ran %d times at offset %d" % (r, n, p_), c,
                                  {"site": r})
+    # a check function of a memoized rule belongs to the memoized body: at most one call per offset the rule is tried at
+    for rule, fn in (meta.get("memo_checks") or {}).items():
+        tried = {e["p"] for e in c.act.get("events", []) if e["ev"] == "enter" and e.get("r") == rule}
+        calls = sum(1 for e in c.act.get("user", []) if e["ev"] == "chk" and e.get("r") == fn)
+        if tried and calls > len(tried):
+            return Violation(prop, "Packrat", "the check function of memoized rule %s ran %d times although the rule was tried at %d offset(s)" % (
+                rule, calls, len(tried)), c, {"site": rule})
     if meta.get("all_memo"):
         nb = len(c.text.encode("utf-8"))
         total = sum(n for (name, _), n in seen.items() if name.startswith("ext_probe"))
@@ -803,7 +813,8 @@ def cli_trace_inert(res, tier, seed, replay):
         pth = os.path.join(d, nm + ".ebnf")
         with open(pth, "w", newline="") as f:
             f.write(t)
-        return run_door([cli, pth], timeout=60), run_door([cli, "--trace", pth], timeout=120)
+        # stderr on a terminal, stdout redirected: the usual way to look at a trace while keeping the code
+        return run_door_tty([cli, pth], timeout=60), run_door_tty([cli, "--trace", pth], timeout=120)
 
     with ThreadPoolExecutor(max_workers=vlib.NCPU) as ex:
         outs = list(ex.map(one, texts))
@@ -936,7 +947,7 @@ def check_C11(tier, seed, replay):
     if not replay:
         for _ in range(200 if tier == "quick" else 5000):
             n = rnd.randint(5, 60)
-            cps = [rnd.choice([97, 98, 32, 10, 10, 13, 233, 36947, 128512, 9]) for _ in range(n)]
+            cps = [rnd.choice([97, 98, 32, 10, 10, 13, 233, 36947, 128512, 9, 11, 12, 0, 127, 0x85, 0x2028, 0x301]) for _ in range(n)]
             k = rnd.randint(0, n)
             txt = "".join(map(chr, cps))
             pos = len(txt[:k].encode("utf-8"))
@@ -962,6 +973,9 @@ def check_C11(tier, seed, replay):
         for n in (254, 255, 256, 257, 511, 512, 513, 1000):
             longs.append("\n" * n + "ab")
             longs.append("x\n" * n + "\u00e9b")
+        for seq_ in ("\n\x0b", "\x0b\n", "\n\x0c", "\r\n", "\n\r", "\n\x00", "\x7f\n", "\n\u0085", "\u2028\n", "\n\t"):
+            for off in range(8):
+                longs.append("a" * off + seq_ * 3 + "bc" + seq_ + "d\u00e9")       # control characters next to newlines, at every alignment
         for n in (255, 256, 257, 300):
             longs.append("a" * n + "\u00e9b\ncd")            # a long line
             longs.append("\u9053" * n + "b")
@@ -1293,6 +1307,56 @@ def run_door(cmd, timeout=20, extra_env=None):
         return {"status": "timeout", "code": None, "out": "", "err": ""}
     out = p_.stdout.decode("utf-8", "replace")
     err = p_.stderr.decode("utf-8", "replace")
+    if p_.returncode < 0:
+        return {"status": "signal", "code": -p_.returncode, "out": out[:300], "err": err[:300]}
+    return {"status": "exit", "code": p_.returncode, "out": out, "err": err[:400]}
+
+
+def run_door_tty(cmd, timeout=120):
+    """like run_door, with stderr on a pseudo-terminal (what a person at a shell has when only stdout is redirected)"""
+    import pty
+    import subprocess
+    import threading
+    env = dict(os.environ)
+    env["RUST_BACKTRACE"] = "0"
+    for k in ("NO_COLOR", "CLICOLOR", "CLICOLOR_FORCE", "VERIF_CTX", "VERIF_CTX_ORDER"):
+        env.pop(k, None)
+    try:
+        master, slave = pty.openpty()
+    except OSError:
+        return run_door(cmd, timeout=timeout)       # no pseudo-terminals here: stderr on a pipe
+    buf = []
+
+    def drain():
+        try:
+            while True:
+                d_ = os.read(master, 65536)
+                if not d_:
+                    break
+                if sum(len(x) for x in buf) < 4000:
+                    buf.append(d_)
+        except OSError:
+            pass
+    try:
+        p_ = subprocess.Popen(cmd, stdout=subprocess.PIPE, stderr=slave, stdin=subprocess.DEVNULL, env=env)
+    finally:
+        os.close(slave)
+    t_ = threading.Thread(target=drain, daemon=True)
+    t_.start()
+    try:
+        out, _ = p_.communicate(timeout=timeout)
+    except subprocess.TimeoutExpired:
+        p_.kill()
+        p_.communicate()
+        os.close(master)
+        return {"status": "timeout", "code": None, "out": "", "err": ""}
+    t_.join(timeout=2)
+    try:
+        os.close(master)
+    except OSError:
+        pass
+    out = out.decode("utf-8", "replace")
+    err = b"".join(buf).decode("utf-8", "replace")
     if p_.returncode < 0:
         return {"status": "signal", "code": -p_.returncode, "out": out[:300], "err": err[:300]}
     return {"status": "exit", "code": p_.returncode, "out": out, "err": err[:400]}
@@ -1632,6 +1696,9 @@ def check_C20(tier, seed, replay):
     for c in cases_all:
         if not c.crashed and not c.act.get("again_same", True):
             res.add(Violation("C20", "SessionPure", "parsing the same input again gives a different result", c))
+        elif c.crashed:
+            res.add(Violation("C20", "SessionPure", "a parse in a session of many does not return (%s) although grammar and input determine "
+                              "a result" % c.crash_msg, c))
         elif not c.crashed:
             # every case is one parse in a long session on one thread (out of one reused buffer): its result must be
             # the one the specification determines from grammar and input alone
@@ -2182,7 +2249,10 @@ def check_C17(tier, seed, replay):
         for root, dn, fn in os.walk(os.path.join(vlib.REPO, "test", "src")):
             repo_texts += [open(os.path.join(root, f)).read() for f in sorted(fn) if f.endswith("ebnf")]
         texts += repo_texts
-        junk = ["(", ")", "[", "]", "{", "}", "!", "&", "|", ";", "=", ":", "@", "*", ">", "'", '"', "\\", "..", "$", "i'", "é", "#", "\n"]
+        junk = ["(", ")", "[", "]", "{", "}", "!", "&", "|", ";", "=", ":", "@", "*", ">", "'", '"', "\\", "..", "$", "i'", "é", "#", "\n",
+                "\ufeff", "\r\n", "\x00", "\u00a0", "\t"]
+        # characters that an editor may put at the very beginning or end of a file
+        texts += [pre + t_ + post for t_ in repo_texts[:3] for pre, post in (("\ufeff", ""), ("\ufeff\ufeff", ""), (" \n", "\x1a"), ("", "\ufeff"), ("\x00", ""))]
         for i in range(60 if tier == "quick" else 1500):
             cs = list(rnd.choice(texts[:len(srcs)] + repo_texts))
             for _ in range(rnd.randint(1, 3)):
@@ -2201,15 +2271,18 @@ def check_C17(tier, seed, replay):
             pth = os.path.join(wdir, "t%05d.ebnf" % i)
             with open(pth, "w") as f:
                 f.write(texts[i])
-            return run_door([front0, "ast", pth], timeout=60), run_door([front1, "ast", pth], timeout=60)
+            return (run_door([front0, "ast", pth], timeout=60), run_door([front1, "ast", pth], timeout=60),
+                    run_door([front1, "astparse", pth], timeout=60), run_door([front0, "astparse", pth], timeout=60))
 
         with ThreadPoolExecutor(max_workers=vlib.NCPU) as ex:
             outs = list(ex.map(read_both, range(len(texts))))
         dg = lambda x: hashlib.sha256(x.encode("utf-8")).hexdigest()[:16]  # noqa: E731
         events = [{"ev": "stage", "n": 0, "code": dg(body(shipped))}, {"ev": "stage", "n": 1, "code": dg(body(s1))},
                   {"ev": "stage", "n": 2, "code": dg(body(s2))}]
-        for i, (a, b) in enumerate(outs):
-            for n, r in ((0, a), (1, b)):
+        for i, (a, b, c_, d_) in enumerate(outs):
+            # 0 / 1: shipped / regenerated front end through Grammar::from_str; 2 / 3: the regenerated / shipped generated
+            # parser itself (PegParser::parse) - four readings of every text, one answer
+            for n, r in ((0, a), (1, b), (2, c_), (3, d_)):
                 out = r["out"] if r["status"] == "exit" and r["code"] == 0 else "%s:%s" % (r["status"], r["code"])
                 events.append({"ev": "read", "n": n, "text": "t%05d" % i, "out": dg(out)})
         tp = os.path.join(vlib.famdir("boot", tier), "boot_trace.ndjson")
@@ -2229,9 +2302,12 @@ def check_C17(tier, seed, replay):
                 res.add(Violation("C17", "Fixpoint", what, None, {"site": "stage%d" % ev["n"], "diff": diff}))
             else:
                 i = int(ev["text"][1:])
-                res.add(Violation("C17", "SameReading", "the shipped and the regenerated front end read a text differently", None,
+                which = {1: "the shipped and the regenerated front end read a text differently",
+                         2: "the parser generated from grammar.ebnf (PegParser::parse) and the shipped front end (Grammar::from_str) read a text differently",
+                         3: "the shipped front end reads a text differently through Grammar::from_str and through PegParser::parse"}.get(ev["n"], "readings differ")
+                res.add(Violation("C17", "SameReading", which, None,
                                   {"site": "reading", "text": texts[i][:2000], "shipped": outs[i][0]["out"][:600],
-                                   "regenerated": outs[i][1]["out"][:600]}))
+                                   "regenerated": outs[i][1]["out"][:600], "regenerated_parse": outs[i][2]["out"][:600]}))
         return finish_C17(res, events, st["states"], len(texts))
     finally:
         shutil.rmtree(scratch, ignore_errors=True)
